@@ -251,6 +251,8 @@ const (
 type stBinding struct {
 	tmpl stNode
 	name string
+	val  ssa.Value // the argument itself (slice literals handed to variadic helpers)
+	fr   *stFrame  // the frame val is evaluated in
 }
 
 type stFrame struct {
@@ -296,9 +298,17 @@ func isStringType(t types.Type) bool {
 }
 
 // stTemplateOf evaluates result #idx (a string) of fn.
-func stTemplateOf(fn *ssa.Function, idx int) stNode {
+func stTemplateOf(fn *ssa.Function, idx int) stNode { return stTemplateWith(fn, idx, nil) }
+
+// stTemplateWith evaluates fn with some string parameters replaced by given
+// templates (the instantiation of a parameterised builder at a call site).
+func stTemplateWith(fn *ssa.Function, idx int, with map[*ssa.Parameter]stNode) stNode {
 	paths := 0
-	fr := &stFrame{fn: fn, params: stParamNames(fn), preds: map[*ssa.BasicBlock]*ssa.BasicBlock{}, paths: &paths}
+	params := stParamNames(fn)
+	for p, n := range with {
+		params[p] = stBinding{tmpl: n}
+	}
+	fr := &stFrame{fn: fn, params: params, preds: map[*ssa.BasicBlock]*ssa.BasicBlock{}, paths: &paths}
 	return stNormalize(fr.fromBlock(fn.Blocks[0], idx, map[*ssa.BasicBlock]bool{}))
 }
 
@@ -412,6 +422,8 @@ func (fr *stFrame) sym(v ssa.Value) string {
 		if s := stSingleStore(u); s != nil {
 			return fr.sym(s.Val) // &x of a spilled parameter: same role
 		}
+	case *ssa.Extract:
+		return fr.sym(u.Tuple) + fmt.Sprintf("#%d", u.Index)
 	case *ssa.MakeMap:
 		return stTypeName(u.Type()) + "{}"
 	case *ssa.MakeInterface:
@@ -687,7 +699,20 @@ func (fr *stFrame) evalCall(c *ssa.Call) stNode {
 		if !ok {
 			return stUnknown{"strings.Join with a non-constant separator"}
 		}
-		elems, ok := stLitElems(args[0])
+		// the slice may be a (variadic) parameter of an inlined helper: resolve it in the caller
+		list, lfr := args[0], fr
+		for {
+			p, isParam := list.(*ssa.Parameter)
+			if !isParam {
+				break
+			}
+			b, ok := lfr.params[p]
+			if !ok || b.val == nil || b.fr == nil {
+				break
+			}
+			list, lfr = b.val, b.fr
+		}
+		elems, ok := stLitElems(list)
 		if !ok {
 			return stUnknown{"strings.Join of a non-literal slice"}
 		}
@@ -696,7 +721,7 @@ func (fr *stFrame) evalCall(c *ssa.Call) stNode {
 			if i > 0 {
 				out = append(out, stLit(sep))
 			}
-			out = append(out, fr.eval(e))
+			out = append(out, lfr.eval(e))
 		}
 		return out
 	}
@@ -707,7 +732,7 @@ func (fr *stFrame) evalCall(c *ssa.Call) stNode {
 		}
 		params := map[*ssa.Parameter]stBinding{}
 		for i, p := range f.Params {
-			b := stBinding{name: fr.sym(args[i])}
+			b := stBinding{name: fr.sym(args[i]), val: args[i], fr: fr}
 			if isStringType(p.Type()) {
 				b.tmpl = fr.eval(args[i])
 				b.name = ""
